@@ -14,6 +14,13 @@ Record vote_case := {
   vc_post : vstore }.
 Record tally_case := {
   tc_vals : list val; tc_ballots : list ballot; tc_bonded : Z;
+  (* ghost quantities tracked by the harness from x/staking alone (not from the tally):
+     per vote record (empty or not): its weights and the voter's own stake
+     (Validator.TokensFromShares, raw Dec) at each bonded validator it delegates to;
+     per bonded validator: the operator's recorded weights and its bonded tokens minus the stake of
+     all its delegators that have any vote record *)
+  tc_gh_voters : list (list (Z * Z) * list Z);
+  tc_gh_vals : list (list (Z * Z) * Z);
   tc_obs : res (list (Z * Z)) }.
 Record begin_case := {
   bc_balance : Z;                      (* fee collector, bond denom *)
@@ -24,6 +31,8 @@ Record block_case := {
   kc_pre : istate; kc_balance : Z; kc_status : Z -> pool_status;
   kc_height : Z; kc_epoch_blocks : Z;
   kc_vals : list val; kc_ballots : list ballot; kc_bonded : Z;   (* staking graph and votes at the end of the block *)
+  kc_gh_voters : list (list (Z * Z) * list Z);                  (* ghosts as in tally_case, end of the block *)
+  kc_gh_vals : list (list (Z * Z) * Z);
   kc_obs : res (list Z * istate) }.
 Inductive c17_case :=
 | CVote (c : vote_case) | CTally (c : tally_case) | CBegin (c : begin_case) | CBlock (c : block_case).
@@ -95,6 +104,33 @@ Definition mon_total_le_bonded (c : tally_case) : bool :=
       else true
   | _ => true
   end.
+
+(* 7 (tally / new epoch): a delegator's vote overrides its validator's for the delegator's own
+     stake, every token counted once: the observed count of every pool equals
+        sum over vote records  weight(pool) * own stake
+      + sum over validators    weight(pool) * (bonded tokens - stake of its delegators with a vote record)
+     truncated, up to the rounding slack (a few 10^-18 units per accumulated term; scale here:
+     weight * stake, both raw Dec, so one token = 10^36). An empty vote contributes 0 and still
+     overrides. *)
+Definition wsum_k (k : Z) (w : list (Z * Z)) : Z :=
+  fold_right (fun kv a => if fst kv =? k then snd kv + a else a) 0 w.
+Definition gh_expected (k : Z) (voters : list (list (Z * Z) * list Z)) (vals : list (list (Z * Z) * Z)) : Z :=
+  fold_right (fun v a => wsum_k k (fst v) * zsum (snd v) + a) 0 voters
+  + fold_right (fun v a => wsum_k k (fst v) * snd v + a) 0 vals.
+Definition gh_terms (voters : list (list (Z * Z) * list Z)) (vals : list (list (Z * Z) * Z)) : Z :=
+  let nd := fold_right (fun v a => lenz (snd v) + a) 0 voters in
+  fold_right (fun v a => (lenz (fst v) + 1) * (lenz (snd v) + 1) + a) 0 voters
+  + fold_right (fun v a => (lenz (fst v) + 1) * (nd + 2) + a) 0 vals.
+Definition gh_keys (l : list (Z * Z)) (voters : list (list (Z * Z) * list Z)) (vals : list (list (Z * Z) * Z)) : list Z :=
+  map fst l ++ flat_map (fun v => map fst (fst v)) voters ++ flat_map (fun v => map fst (fst v)) vals.
+Definition mon_override (bonded : Z) (l : list (Z * Z))
+  (voters : list (list (Z * Z) * list Z)) (vals : list (list (Z * Z) * Z)) : bool :=
+  if bonded =? 0 then true else
+  let tol := 4 * P * gh_terms voters vals in
+  forallb (fun k =>
+    let c := rget k l in
+    let e := gh_expected k voters vals in
+    (c * P * P <=? e + tol) && (e - tol <? (c + 1) * P * P)) (gh_keys l voters vals).
 
 (* 2 (vote): an accepted vote has non-negative weights summing to at most one and replaces only
      the sender's vote; a rejected one changes nothing *)
@@ -207,7 +243,11 @@ Definition trig_zero_liq {A} (balance : Z) (last : option epoch) (status : Z -> 
 Definition c17_check (c : c17_case) : list Z :=
   match c with
   | CVote c => flag 0 (vote_corr c) ++ flag 2 (mon_vote c) ++ flag 6 (mon_store_ok c)
-  | CTally c => flag 0 (tally_corr c) ++ flag 1 (mon_total_le_bonded c)
+  | CTally c => flag 0 (tally_corr c) ++ flag 1 (mon_total_le_bonded c) ++
+      match tc_obs c with
+      | Ok l => flag 7 (mon_override (tc_bonded c) l (tc_gh_voters c) (tc_gh_vals c))
+      | _ => []
+      end
   | CBegin c =>
       flag 0 (begin_corr c) ++
       match bc_obs c with
@@ -225,6 +265,18 @@ Definition c17_check (c : c17_case) : list Z :=
           flag 4 (mon_proportional (kc_balance c) (last_epoch (s_epochs (kc_pre c))) (kc_status c) ts)
       | _ => []
       end ++ flag 5 (mon_epochs c) ++
+      (* the gauges of an epoch created in this block, against the ghosts *)
+      match kc_obs c with
+      | Ok (_, st') =>
+          match last_epoch (s_epochs st'), last_epoch (s_epochs (kc_pre c)) with
+          | Some e, prev =>
+              if match prev with Some a => e_id a =? e_id e | None => false end then []
+              else flag 7 (mon_override (kc_bonded c) (map (fun g => (g_pool g, g_count g)) (e_gauges e))
+                                        (kc_gh_voters c) (kc_gh_vals c))
+          | None, _ => []
+          end
+      | _ => []
+      end ++
       flag 101 (negb (trig_overshoot (kc_balance c) (last_epoch (s_epochs (kc_pre c))))) ++
       flag 102 (negb (trig_zero_liq (kc_balance c) (last_epoch (s_epochs (kc_pre c))) (kc_status c) (kc_obs c)))
   end.
